@@ -44,15 +44,37 @@ theorem spacingRegular_uses_source (ds : List Rat) (rk : List Nat) (hint : Optio
 
 /-! ## gaps route -/
 
-/-- `spacingMissing` with the source's expressions: zero test with `Gen.gapZeroAtol`, multiples `Gen.gapMultiple`,
+/-- one step of the refinement loop with the source's expressions -/
+def refineStepSrc (s D : Rat) : Except ErrKind Rat := do
+  let q ← Gen.gapRefineRatio D s
+  let n := roundHalfEven q
+  let g ← Gen.gapRefineGuard n
+  if g then Gen.gapRefined D n else pure s
+
+/-- the loop `for distance in origin_distances_sorted[1:] - origin_distances_sorted[0]` -/
+def refineSpacingSrc (s : Rat) : List Rat → Except ErrKind Rat
+  | [] => pure s
+  | D :: ds => do
+    let s' ← refineStepSrc s D
+    refineSpacingSrc s' ds
+
+/-- `estimateSpacing` with the source's expressions -/
+def estimateSpacingSrc (dSorted : List Rat) : Except ErrKind (Option Rat) :=
+  match minList (diffs dSorted) with
+  | some m => if isClose m 0 npRtol Gen.gapZeroAtol then pure none
+              else do
+                let s ← refineSpacingSrc m (dSorted.tail.map fun x => x - dSorted.headD 0)
+                pure (some s)
+  | none => .error .value
+
+/-- `spacingMissing` with the source's expressions: estimate `estimateSpacingSrc` (zero test with `Gen.gapZeroAtol`, refinement
+loop with `Gen.gapRefineRatio`, `Gen.gapRefineGuard`, `Gen.gapRefined`), multiples `Gen.gapMultiple`,
 tolerances `Gen.gapRtol` / `Gen.gapAtol`. -/
 def spacingMissingSrc (d dSorted : List Rat) (hint : Option Rat) (rtol atol : Rat) :
     Except ErrKind (Option (Rat × Bool × List Int)) := do
   let sp ← (match hint with
     | some h => pure (some h)
-    | none => match minList (diffs dSorted) with
-      | some m => if isClose m 0 npRtol Gen.gapZeroAtol then pure none else pure (some m)
-      | none => .error .value : Except ErrKind (Option Rat))
+    | none => estimateSpacingSrc dSorted : Except ErrKind (Option Rat))
   match sp, minList d with
   | some s, some dmin => do
     let mult ← d.mapM fun x => Gen.gapMultiple x dmin s
@@ -65,10 +87,32 @@ def spacingMissingSrc (d dSorted : List Rat) (hint : Option Rat) (rtol atol : Ra
 
 theorem gapZeroAtol_eq : Gen.gapZeroAtol = eqTol := by decide +kernel
 
+theorem refineSpacingSrc_eq : ∀ (ds : List Rat) (s : Rat), refineSpacingSrc s ds = .ok (refineSpacing s ds) := by
+  intro ds
+  induction ds with
+  | nil => intro s; rfl
+  | cons D ds ih =>
+    intro s
+    have hstep : refineStepSrc s D
+        = .ok (if 0 < roundHalfEven (D / s) then D / ((roundHalfEven (D / s) : Int) : Rat) else s) := by
+      simp only [refineStepSrc, Gen.gapRefineRatio, Gen.gapRefineGuard, Gen.gapRefined, bind, Except.bind, pure, Except.pure,
+        gt_iff_lt, decide_eq_true_eq]
+      split <;> rfl
+    rw [refineSpacing_cons, ← ih]
+    simp only [refineSpacingSrc, hstep, bind, Except.bind]
+
+theorem estimateSpacing_uses_source (ds : List Rat) : estimateSpacing ds = estimateSpacingSrc ds := by
+  unfold estimateSpacing estimateSpacingSrc
+  rw [gapZeroAtol_eq]
+  cases minList (diffs ds) with
+  | none => rfl
+  | some m =>
+    simp only [refineSpacingSrc_eq, bind, Except.bind, pure, Except.pure]
+
 theorem spacingMissing_uses_source (d ds : List Rat) (hint : Option Rat) (rtol atol : Rat) :
     spacingMissing d ds hint rtol atol = spacingMissingSrc d ds hint rtol atol := by
   unfold spacingMissing spacingMissingSrc
-  rw [gapZeroAtol_eq]
+  rw [estimateSpacing_uses_source]
   congr 1
   funext sp
   cases sp with
